@@ -655,18 +655,20 @@ Inductive out :=
 Definition fresh_mem (d : disk) : mem :=
   mkMem true (d_pass d) (map (fun kv => (fst kv, fst (snd kv))) (d_scopes d)) [] [] [] [] [] [].
 
-(** createManagerKeyScope: coin-type key and account 0 of a scope *)
-Definition create_scope (d : disk) (s : scope) (sch : schema) : disk :=
+(** createManagerKeyScope: coin-type key and account 0 of a scope.  Only
+    createManagerNS (waddrmgr.Create, default scopes) stores lastAccount = 0;
+    NewScopedKeyManager does not ([set_last] = false). *)
+Definition create_scope (set_last : bool) (d : disk) (s : scope) (sch : schema) : disk :=
   let coin := child (child (d_master d) (fst s) true) (snd s) true in
   let acct := child coin 0 true in
   set_d_scopes (d_scopes d ++ [(s, (sch, coin))])
-    (set_d_last (aset scope_eq_dec (d_last d) s 0)
+    (set_d_last (if set_last then aset scope_eq_dec (d_last d) s 0 else d_last d)
        (set_d_accts (aset sa_dec (d_accts d) (s, 0) (mkRow ADefault acct (Some acct) None 0 0)) d)).
 
 (** waddrmgr.Create followed by waddrmgr.Open *)
 Definition init (seed pass : N) : state :=
   let d0 := mkDisk (master seed) pass [] [] [] [] [] in
-  let d := fold_left (fun d kv => create_scope d (fst kv) (snd kv)) default_scopes d0 in
+  let d := fold_left (fun d kv => create_scope true d (fst kv) (snd kv)) default_scopes d0 in
   mkState d (fresh_mem d).
 
 Definition with_scope (st : state) (s : scope) (f : schema -> state * out) : state * out :=
@@ -678,19 +680,23 @@ Definition with_scope (st : state) (s : scope) (f : schema -> state * out) : sta
 Definition name_taken (d : disk) (s : scope) (name : N) : bool :=
   existsb (fun kv => if scope_eq_dec (fst (fst kv)) s then ar_name (snd kv) =? name else false) (d_accts d).
 
+(** fetchLastAccount: 2^32-1 when the scope has no lastAccount entry, so that
+    the caller's `account++` wraps to 0 *)
 Definition last_account (d : disk) (s : scope) : N :=
-  match aget scope_eq_dec (d_last d) s with Some n => n | None => 0 end.
+  match aget scope_eq_dec (d_last d) s with Some n => n | None => 4294967295 end.
 
 (** name 0 = "default" (account 0 of every scope) *)
 Definition new_account_row (st : state) (s : scope) (name : N) (row : N -> option acct_row) : state * out :=
   let d := st_disk st in
-  let a := last_account d s + 1 in
+  let a := (last_account d s + 1) mod 4294967296 in
   if name_taken d s name then (st, OutErr EDuplicate)
   else match row a with
        | None => (st, OutErr EKeyChain)
        | Some r =>
+         (* put{Default,WatchOnly}AccountInfo(..., 0, 0, name): the row with both next indices 0 *)
          (upd_disk (fun d => set_d_last (aset scope_eq_dec (d_last d) s a)
-                               (set_d_accts (aset sa_dec (d_accts d) (s, a) r) d)) st, OutAcct a)
+                               (set_d_next (aset sab_dec (aset sab_dec (d_next d) (s, a, false) 0) (s, a, true) 0)
+                                  (set_d_accts (aset sa_dec (d_accts d) (s, a) r) d))) st, OutAcct a)
        end.
 
 Definition exists_address (st : state) (s : scope) (k : akey) : bool :=
@@ -716,7 +722,7 @@ Definition step (extend_priv : bool) (st : state) (o : op) : state * out :=
     if locked st then (st, OutErr ELocked)
     else if is_some (aget scope_eq_dec (d_scopes (st_disk st)) s) then (st, OutErr EOther)
     else (upd_mem (fun m => set_m_scopes (m_scopes m ++ [(s, sch)]) m)
-                  (upd_disk (fun d => create_scope d s sch) st), OutOk)
+                  (upd_disk (fun d => create_scope false d s sch) st), OutOk)
 
   | ONewAccount s name =>
     if locked st then (st, OutErr ELocked)
